@@ -811,6 +811,7 @@ class Exec:
                 continue
             val = self.read_path(st, path)
             st.assume(L.eq(val, v))
+        st.locals["$rng"] = fresh("rng.entry", INT)     # state of numpy's global generator on entry (unknown)
         self.old = st.copy()
         v = self.ns(st)
         for name, term in c.requires(v):
@@ -1383,7 +1384,11 @@ class Exec:
                              getattr(stmt, "lineno", 0), "")
             cov.defs = self.defs
             self.obligations.append(cov)
-            body_outs = self.exec_block(itst, body)
+            self._loop_depth = getattr(self, "_loop_depth", 0) + 1
+            try:
+                body_outs = self.exec_block(itst, body)
+            finally:
+                self._loop_depth -= 1
             for (s2, kind, val) in body_outs:
                 if kind in ("next", "continue"):
                     if advance:
